@@ -47,6 +47,12 @@ CHECKS = {
         text="For ~70 (quick) / ~110 (thorough) analytic invocations - sum avg count min max first_value last_value lag lead rank ratio_to_report (thorough: median, var, stddev) with partition by / except, "
              "asc/desc order, data-point frames (offsets 0-2, unbounded, current) and range frames, at dataset level and inside calc - the emitted window SQL evaluated over all tables of 3 (4) datapoints "
              "equals the function over the datapoints of the partition inside the frame, under the statement's precondition of a total order."),
+    "C07": dict(technique="bounded SMT (z3) equivalence between the validation / hierarchy SQL regenerated from the real transpiler and a reference written from the statement over symbolic tables; models replayed through run()",
+        engine="sqlsmt", ref="3 C07", note="Trusted: sqlglot + vt/sqlsmt SQL semantics (self-checked per template against real DuckDB), z3, AST shapes of the ruleset nodes.",
+        text="check (all/invalid, errorcode, errorlevel, imbalance), check_datapoint (rulesets of 1-2 rules incl. when/then, outputs invalid/all/all_measures) and check_hierarchy / hierarchy (rulesets "
+             "of 1-2 rules over three code items, outputs invalid/all/all_measures/computed/all, modes non_null, always_null, always_zero, a dependent rule chain): over all input tables of 2-3 "
+             "datapoints the emitted SQL returns exactly the datapoints / code items whose rule is FALSE (invalid) or every evaluated one with its outcome (all), errorcode/errorlevel exactly where "
+             "FALSE, imbalance = left - right, and the computed items of '=' rules."),
     "C11": dict(
         technique="CrossHair symbolic execution of the real promotion functions and operator classes over symbolic type indices",
         text="Every obligation is a CrossHair condition over symbolic operand-type indices (all 9x9 pairs, all 9 unary types) calling the "
